@@ -118,7 +118,7 @@ ItemsToRuns(its, stack, ts) ==
   IF its = <<>> THEN <<<<>>, stack>>
   ELSE LET it == Head(its) IN
        IF it.t = "x" THEN LET rest == ItemsToRuns(Tail(its), stack, 0)
-                          IN  <<<<[a |-> it.a, tags |-> stack, ts |-> ts]>> \o rest[1], rest[2]>>
+                          IN  <<<<[a |-> it.a, tags |-> stack, ts |-> ts, col |-> 0]>> \o rest[1], rest[2]>>
        ELSE IF it.t = "ts" THEN ItemsToRuns(Tail(its), stack, it.ms)
        ELSE IF it.t = "o" THEN ItemsToRuns(Tail(its), Append(stack, it.tag), ts)
        ELSE ItemsToRuns(Tail(its), IF stack = <<>> THEN stack ELSE SubSeq(stack, 1, Len(stack) - 1), ts)
@@ -187,7 +187,14 @@ LoopObs(st, toks) == IF toks = <<>> THEN <<>> ELSE <<LoopObsOf(st)>> \o LoopObs(
 ImplHooks(D) == IF D.toks = <<>> THEN <<>> ELSE LoopObs(LoopInit, Tail(D.toks))
 
 ---------------------------------------------------------------------------
-(* Writer contract: the written document denotes the list with cues numbered 1..n *)
+(* Writer contract: the written document denotes the list with cues numbered 1..n.
+   A run may carry a colour that comes from another format (col # 0; TTML / teletext / STL colours): WebVTT has no
+   colour attribute and the convention is a class span named after the colour around the run's own tags. *)
 Renumber(G) == [G EXCEPT !.cues = [i \in DOMAIN G.cues |-> [G.cues[i] EXCEPT !.id = i]]]
-WriteOK(G, D) == RefRead(D) = Truth(Renumber(G))
+ColourTag(c) == [name |-> "c", cls |-> <<c>>, ann |-> 0]
+ColourRun(r) == IF r.col = 0 THEN r ELSE [r EXCEPT !.tags = <<ColourTag(r.col)>> \o @, !.col = 0]
+ColourAsClass(G) ==
+  [G EXCEPT !.cues = [i \in DOMAIN G.cues |-> [G.cues[i] EXCEPT !.lines =
+     [j \in DOMAIN G.cues[i].lines |-> [G.cues[i].lines[j] EXCEPT !.runs = [k \in DOMAIN G.cues[i].lines[j].runs |-> ColourRun(G.cues[i].lines[j].runs[k])]]]]]]
+WriteOK(G, D) == RefRead(D) = Truth(Renumber(ColourAsClass(G)))
 =============================================================================
